@@ -23,7 +23,7 @@ INFO = {
     "C02": ("rapid PBT + exhaustive boundary cross product: kind x value x comparison value x literal spelling, oracle computed by construction (math/big-checked spellings)",
             "generated boundary/spelling cross product with a by-construction oracle",
             "§4 C02"),
-    "C03": ("rapid PBT, metamorphic: outcome of `A and B`, `A or B`, `not A`, De Morgan and double negation against the 3x3 table of the parts' own outcomes; chains of up to 48 operands of planted outcome against the left-to-right fold; left-nested trees 1-14 levels deep against the table applied bottom-up; one evaluator over streams of 300-300000 documents then all outcome patterns; leaves whose evaluation makes the caller's hook panic (unreached operands are not evaluated)",
+    "C03": ("rapid PBT, metamorphic: outcome of `A and B`, `A or B`, `not A`, De Morgan and double negation against the 3x3 table of the parts' own outcomes; chains of up to 48 operands of planted outcome against the left-to-right fold; left-nested trees 1-14 levels deep against the table applied bottom-up; one evaluator over streams of 300-300000 documents then all outcome patterns; leaves whose evaluation makes the caller's hook panic (unreached operands are not evaluated); exhaustive regular-expression runs on one selector (inline flags)",
             "metamorphic relation (composite vs. parts) over generated sub-expressions",
             "§4 C03"),
     "C04": ("rapid PBT, metamorphic: each negated operator vs. its positive form, contains vs. in, not(...) wrappers, on generated (selector, literal, datum) triples and on Go values outside the universe (time.Time, IsZero/Len/Equal types, interfaces with methods)",
@@ -35,7 +35,7 @@ INFO = {
     "C06": ("rapid PBT: quantifiers over generated collections, reference interpreter plus unrolling into or/and chains, binding/shadowing cases; exhaustive fold over typed primitive collections of length 0-3 against per-element outcomes; long collections with index/element pairing; folds abandoned by a panic of the caller's hook",
             "reference interpreter + unrolling metamorphic relation over generated collections",
             "§4 C06"),
-    "C07": ("rapid PBT, metamorphic: same path in dotted / bracket / backtick / JSON-Pointer spellings must parse to the same path and evaluate identically; confusable selectors used together inside and outside quantifier bodies; exhaustive odd parts (\"-\", signed/padded/hex digits, empty, ~ . * #) under every container kind",
+    "C07": ("rapid PBT, metamorphic: same path in dotted / bracket / backtick / JSON-Pointer spellings must parse to the same path and evaluate identically; confusable selectors used together inside and outside quantifier bodies; the hook re-entering the same evaluator during quantifiers; exhaustive odd parts (\"-\", signed/padded/hex digits, empty, ~ . * #) under every container kind",
             "metamorphic relation over generated selector spellings",
             "§4 C07"),
     "C08": ("rapid PBT, two-run non-interference: twin data differing only in hidden/unexported fields must give identical Evaluate and Filter results; structs of 65-300 fields with hidden fields at drawn positions; same-named struct types from different scopes",
@@ -62,7 +62,7 @@ INFO = {
     "C15": ("exhaustive token sequences + rapid grammar renderings and mutations, differential against an independent hand-written PEG recogniser/AST builder; concurrent schedules of parses compared with their sequential outcomes",
             "differential against an independent reference parser over enumerated and generated strings",
             "§4 C15, §2.4"),
-    "C16": ("rapid PBT round trip: render(own AST, all layouts) -> grammar.Parse == expected AST; literal fidelity by evaluation on {X: s}; round trips run in 4-8 goroutines at once",
+    "C16": ("rapid PBT round trip: render(own AST, all layouts) -> grammar.Parse == expected AST; literal fidelity by evaluation on {X: s}; round trips run in 4-8 goroutines at once and read through grammar.ParseReader from 8 kinds of io.Reader",
             "print-then-parse round trip over generated trees and strings",
             "§4 C16"),
     "C17": ("rapid PBT: Filter.Execute compared element-wise with a separate evaluator; type, order, identity, error, purity, idempotence, partition; containers of up to 70000 elements; maps with keys that are not equal to themselves (NaN)",
@@ -71,10 +71,10 @@ INFO = {
     "C18": ("rapid PBT: option multisets/permutations; permutation invariance, last-wins, neutral settings, hook effect vs reference interpreter; option slices and option values re-used by the caller",
             "metamorphic relations over generated option lists",
             "§4 C18"),
-    "C19": ("rapid PBT: ExpressionDump of parser-produced trees vs an independent reference renderer, byte-equal, into every kind of writer; repeatability",
+    "C19": ("rapid PBT: ExpressionDump of parser-produced trees vs an independent reference renderer, byte-equal, into every kind of writer; repeatability; concurrent dumps of one tree with different arguments",
             "differential against an independent reference renderer",
             "§4 C19"),
-    "C20": ("differential: a second parser generated at check time from grammar.peg (pegc: rule table read from the .peg, code blocks compiled verbatim) vs grammar.Parse on grammar-derived inputs, token sequences, long shapes, rune sweeps and native fuzzing; accept/reject, tree, exact error text and number of expression nodes entered must agree; per-node coverage of the .peg reported",
+    "C20": ("differential: a second parser generated at check time from grammar.peg (pegc: rule table read from the .peg, code blocks compiled verbatim) vs grammar.Parse on grammar-derived inputs, token sequences, long shapes, rune sweeps and native fuzzing; accept/reject, tree, exact error text and number of expression nodes entered must agree; per-node coverage of the .peg reported; every rule as entry point, AllowInvalidUTF8, file names, ParseReader",
             "differential between the shipped parser and an interpreter of the shipped grammar over generated inputs",
             "§4 C20, §2.4"),
 }
